@@ -12,6 +12,7 @@
   model; it uses the run queues only through `Wsd.exactly_once`.)
 -/
 import LibfiberVerif.Proof.Wsd
+import LibfiberVerif.Proof.Rt
 
 namespace LibfiberVerif.Wsd
 
@@ -255,3 +256,186 @@ example : ∃ s, (sys 1).run (growTrace ++ [.casTop 1 0 0 1 true 5, .retSteal 1 
   ⟨_, rfl, by decide, by decide, by decide, by decide⟩
 
 end LibfiberVerif.Wsd
+
+/-! # ===================== runtime half of C02 (model `Rt`) ===================== -/
+
+/-! ## Section `Rt`: the whole runtime (model `Model/Rt.lean`, invariant `Proof/Rt.lean`)
+
+  "Whenever a fiber is made runnable (created, yielded, woken) it is run exactly once for that
+   wake-up: the run queues never drop an entry and never hand one entry to two takers, whether
+   it is taken by the owning thread or stolen …"
+
+  Here a run queue is a bag at the deque API (`rqpush` / `rqpop` / `rqsteal` call-site events of
+  fiber_scheduler_wsd.c; the deque behind the API is the `Wsd` section above).  Every theorem
+  quantifies over every event list `Rt.sys` accepts: any number (≤ 16) of kernel threads, any
+  number of fibers, any interleaving.
+
+  Vocabulary (Proof/Rt.lean):
+    bagCnt s.bag g   number of run-queue entries holding g, over all queues, with multiplicity
+    handCnt s.tpc g  number of kernel threads holding g in their hand (popped / stolen, not yet
+                     re-queued or switched to)
+    places s g       bagCnt + handCnt
+    cnt p es         number of events of es satisfying p
+    isWake g         `rqpush _ _ g` by fiber_scheduler_schedule: a wake-up (creation, yield's
+                     to_schedule, a waker)
+    isPush g         any `rqpush _ _ g` (wake-up, SAVING re-queue by fiber_scheduler_next,
+                     re-push by load_balance after a steal)
+    isTake g         `rqpop _ _ g` or `rqsteal _ _ g`
+    isSwitch g       `switch _ g`
+    isPopBy k g / isSwitchBy k g / isRequeueBy k g   the same restricted to kernel thread k
+    popHand g p      1 if hand p holds g as the result of a pop (held/requeue/checked/armed)
+
+  The idle clause ("when every kernel thread has gone idle no runnable fiber remains queued
+  anywhere") is NOT a safety invariant of the model — a thread may stop polling while another
+  still holds work — it is a liveness-flavoured statement about the runtime's idle detection.
+  It is checked at run time on every log by `Rt.idleMonitor` (at each `tick` note, emitted when
+  every kernel thread has polled and found nothing for several rounds, all run queues of the
+  model state must be empty); no theorem is claimed for it.
+-/
+
+namespace LibfiberVerif.Rt
+
+/-- **one_place**: every fiber is in at most one place — (number of run-queue entries holding
+    it, over all queues, with multiplicity) + (number of kernel threads holding it in their
+    hand) ≤ 1.  So one entry is never handed to two takers, by pop or by steal. -/
+theorem one_place {es : List Ev} {s : St} (h : sys.run es = some s) (g : Nat) :
+    places s g ≤ 1 :=
+  places_le_one (inv_of_run h) g
+
+/-- what `places` counts: it is positive iff g is in some run queue or some hand (no queue
+    beyond the 32 and no thread beyond the 16 counted ones ever holds anything) -/
+theorem places_meaning {es : List Ev} {s : St} (h : sys.run es = some s) (g : Nat) :
+    0 < places s g ↔ (∃ q, g ∈ s.bag q) ∨ (∃ k, (s.tpc k).fib = some g) :=
+  places_pos_iff (inv_of_run h) g
+
+/-- the same, pairwise: no duplicate inside a queue, not in two queues, not in a queue and a
+    hand, not in two hands -/
+theorem one_place_pairwise {es : List Ev} {s : St} (h : sys.run es = some s) (g : Nat) :
+    (∀ q, (s.bag q).count g ≤ 1) ∧
+    (∀ q q', g ∈ s.bag q → g ∈ s.bag q' → q = q') ∧
+    (∀ q k, g ∈ s.bag q → (s.tpc k).fib ≠ some g) ∧
+    (∀ k k', (s.tpc k).fib = some g → (s.tpc k').fib = some g → k = k') := by
+  have hI := inv_of_run h
+  exact ⟨fun q => List.nodup_iff_count.mp (hI.nodup q) g, fun q q' => hI.bagbag q q' g,
+    fun q k => hI.baghand q k g, fun k k' => hI.handhand k k' g⟩
+
+/-- a fiber that is executing AND in a place is inside the P-saving window (state SAVING:
+    every popper re-queues it); otherwise a running fiber is in no queue and no hand — it
+    cannot be run a second time for the same wake-up -/
+theorem running_in_place_is_saving {es : List Ev} {s : St} (h : sys.run es = some s)
+    {g k : Nat} (hr : s.ctx g = .running k) (hp : 0 < places s g) : s.fst g = SAVING := by
+  rcases (places_pos (inv_of_run h) hp).2.2 with hc | hc | hc
+  · simp [hr] at hc
+  · simp [hr] at hc
+  · exact hc.1
+
+/-- only tracked fibers (script fibers, the main fiber) are ever queued or held; maintenance
+    fibers never are -/
+theorem untracked_nowhere {es : List Ev} {s : St} (h : sys.run es = some s) {g : Nat}
+    (htr : s.tracked g = false) : places s g = 0 := by
+  by_cases hp : 0 < places s g
+  · have := (places_pos (inv_of_run h) hp).1; simp [htr] at this
+  · omega
+
+/-- **token conservation at the queues**: nothing is dropped and nothing is invented —
+    #pushes of g = #pops/steals that returned g + #entries holding g now -/
+theorem token_conservation {es : List Ev} {s : St} (h : sys.run es = some s) (g : Nat) :
+    cnt (isPush g) es = cnt (isTake g) es + bagCnt s.bag g :=
+  (inv_hist_of_run h).2.token g
+
+/-- **run_once_per_wake**: for every tracked fiber, #wake-ups = #context switches to it +
+    (1 if it is queued or held now, else 0).  Steals with their re-push and SAVING re-queues
+    move the one token around without creating or consuming one.  Hence each wake-up is
+    consumed by exactly one context switch, or is the single pending entry. -/
+theorem run_once_per_wake {es : List Ev} {s : St} (h : sys.run es = some s) {g : Nat}
+    (htr : s.tracked g = true) :
+    cnt (isWake g) es = cnt (isSwitch g) es + places s g ∧ places s g ≤ 1 :=
+  ⟨(inv_hist_of_run h).2.wake g htr, one_place h g⟩
+
+/-- so a fiber is never switched to more often than it was woken, and never woken twice
+    without having been run in between -/
+theorem switches_le_wakes {es : List Ev} {s : St} (h : sys.run es = some s) {g : Nat}
+    (htr : s.tracked g = true) :
+    cnt (isSwitch g) es ≤ cnt (isWake g) es ∧ cnt (isWake g) es ≤ cnt (isSwitch g) es + 1 := by
+  obtain ⟨h1, h2⟩ := run_once_per_wake h htr
+  omega
+
+/-- **a switch consumes a pop by the same thread**: per kernel thread k, #pops returning g =
+    #switches to g + #SAVING re-queues of g + (1 if k holds g from a pop now) -/
+theorem pop_accounting {es : List Ev} {s : St} (h : sys.run es = some s) {g : Nat}
+    (htr : s.tracked g = true) (k : Nat) :
+    cnt (isPopBy k g) es =
+      cnt (isSwitchBy k g) es + cnt (isRequeueBy k g) es + popHand g (s.tpc k) :=
+  (inv_hist_of_run h).2.pops g k htr
+
+theorem switches_le_pops {es : List Ev} {s : St} (h : sys.run es = some s) {g : Nat}
+    (htr : s.tracked g = true) (k : Nat) :
+    cnt (isSwitchBy k g) es ≤ cnt (isPopBy k g) es := by
+  have := pop_accounting h htr k; omega
+
+/-- before a fiber exists nothing is pushed, popped, stolen or switched to under its name -/
+theorem nothing_before_create {es : List Ev} {s : St} (h : sys.run es = some s) {g : Nat}
+    (hn : s.ctx g = .none) : cnt (isAbout g) es = 0 :=
+  (inv_hist_of_run h).2.fresh g hn
+
+/-! ### non-vacuity -/
+
+/-- a steal: thread 1 steals fiber 16 from thread 0's queue, re-pushes it on its own queue,
+    pops it and runs it — one wake-up, two pushes, two takes, one switch -/
+def stealTrace : List Ev := [
+  .create 0 16, .spawn, .rqpush 0 1 16 .wake,
+  .rqsteal 1 1 (some 16), .rqpush 1 2 16 .other,
+  .rqpop 1 2 (some 16), .rState 1 16 2 .next, .wState 1 16 1 .switchTo, .switch 1 16]
+
+example : ∃ s, sys.run stealTrace = some s ∧ s.ctx 16 = .running 1 ∧ s.tracked 16 = true ∧
+    cnt (isWake 16) stealTrace = 1 ∧ cnt (isPush 16) stealTrace = 2 ∧
+    cnt (isTake 16) stealTrace = 2 ∧ cnt (isSwitch 16) stealTrace = 1 ∧ places s 16 = 0 :=
+  ⟨_, rfl, by decide, by decide, by decide, by decide, by decide, by decide, by decide⟩
+
+/-- in the middle of the steal the token is in the thief's hand -/
+example : ∃ s, sys.run (stealTrace.take 4) = some s ∧ s.tpc 1 = .stolen 16 ∧
+    bagCnt s.bag 16 = 0 ∧ handCnt s.tpc 16 = 1 ∧ places s 16 = 1 :=
+  ⟨_, rfl, by decide, by decide, by decide, by decide⟩
+
+/-- a second taker is rejected: once thread 1 has stolen the entry, thread 0's pop cannot
+    return it, and a second wake-up push while it is held is rejected -/
+example : sys.run (stealTrace.take 4 ++ [.rqpop 0 1 (some 16)]) = none ∧
+    sys.run (stealTrace.take 4 ++ [.rqpush 0 1 16 .wake]) = none := by
+  refine ⟨by decide, by decide⟩
+
+/-- the P-saving window: the waker schedules a fiber that is still SAVING, another thread pops
+    it, sees SAVING and re-queues it; after the original thread's switch and the maintenance
+    flip it is popped again and run on the other kernel thread.  Fiber 16 over the whole trace:
+    two wake-ups (creation; the waker), two switches to it (thread 0; thread 1), three pushes
+    (the two wake-ups and the SAVING re-queue), three pops; thread 1 pops it twice, re-queues it
+    once and switches to it once. -/
+def savingTrace : List Ev := [
+  .create 0 16, .create 0 17, .spawn,
+  .rqpush 0 1 16 .wake, .rqpush 0 1 17 .wake,
+  .rqsteal 1 1 (some 17), .rqpush 1 2 17 .other,
+  .rqpop 1 2 (some 17), .rState 1 17 2 .next, .wState 1 17 1 .switchTo, .switch 1 17,
+  .rState 0 0 1 .yield, .rqpop 0 1 (some 16), .rState 0 16 2 .next,
+  .rState 0 0 1 .switchTo, .wState 0 0 2 .switchTo, .wState 0 16 1 .switchTo, .switch 0 16,
+  .rState 0 0 2 .maint, .rqpush 0 1 0 .wake,
+  .wState 0 16 5 .waitSaving, .rState 0 16 5 .yield,
+  .rState 1 16 5 .wake, .rqpush 1 2 16 .wake,
+  .rState 1 17 1 .yield, .rqpop 1 2 (some 16), .rState 1 16 5 .next, .rqpush 1 3 16 .next,
+  .rqpop 0 1 (some 0), .rState 0 0 2 .next, .rState 0 16 5 .switchTo, .wState 0 0 1 .switchTo,
+  .switch 0 0, .rState 0 16 5 .maint, .wState 0 16 3 .maint,
+  .rqpop 1 3 (some 16), .rState 1 16 3 .next, .rState 1 17 1 .switchTo, .wState 1 17 2 .switchTo,
+  .wState 1 16 1 .switchTo, .switch 1 16]
+
+example : ∃ s, sys.run savingTrace = some s ∧ s.ctx 16 = .running 1 ∧
+    cnt (isWake 16) savingTrace = 2 ∧ cnt (isSwitch 16) savingTrace = 2 ∧ places s 16 = 0 ∧
+    cnt (isPush 16) savingTrace = 3 ∧ cnt (isTake 16) savingTrace = 3 ∧
+    cnt (isPopBy 1 16) savingTrace = 2 ∧ cnt (isRequeueBy 1 16) savingTrace = 1 ∧
+    cnt (isSwitchBy 1 16) savingTrace = 1 :=
+  ⟨_, rfl, by decide, by decide, by decide, by decide, by decide, by decide, by decide, by decide,
+    by decide⟩
+
+/-- inside the window (after the re-queue): running on thread 0 AND queued, state SAVING -/
+example : ∃ s, sys.run (savingTrace.take 28) = some s ∧ s.ctx 16 = .running 0 ∧
+    places s 16 = 1 ∧ s.fst 16 = SAVING ∧ s.bag 3 = [16] :=
+  ⟨_, rfl, by decide, by decide, by decide, by decide⟩
+
+end LibfiberVerif.Rt
